@@ -158,6 +158,53 @@ def c04Noop (prev next : Obs) (op : Op) : List String :=
   | .time t => chk "time_only_time" (next == { prev with t := t })
   | _ => []
 
+/-! ### C06 — modification -/
+
+def setVol (os : List Order) (i v : Nat) : List Order :=
+  match os[i]? with
+  | some o => os.set i { o with vol := v }
+  | none => os
+
+def c06Modify (tick : Nat) (prev next : Obs) (op : Op) : List String :=
+  let go (i : Nat) (p v : Option Nat) : List String :=
+    match prev.orders[i]? with
+    | none => []
+    | some po =>
+      if po.status ≠ .active then []
+      else if Book.offGrid tick p then []
+      else
+        match p, v with
+        | none, none => chk "modify_nothing_noop" (next == prev)
+        | none, some nv =>
+          if nv < po.vol then
+            -- pure reduction: nothing but its volume and the published volumes change
+            chk "reduce_only_volume" (next.orders == setVol prev.orders i nv && next.trades == prev.trades
+              && next.tradeVol == prev.tradeVol && next.bidAsk == prev.bidAsk && next.t == prev.t) ++
+            chk "reduce_published_volumes"
+              (match po.side with
+               | .bid => next.vols == (prev.vols.1 - (po.vol - nv), prev.vols.2)
+               | .ask => next.vols == (prev.vols.1, prev.vols.2 - (po.vol - nv)))
+          else
+            chk "replace_keeps_identity" (match next.orders[i]? with
+              | some no => no.id = po.id && no.side = po.side && no.trader = po.trader && no.arr = po.arr
+                           && no.svol = po.svol && no.price = po.price
+              | none => false)
+        | some np, nv =>
+          chk "replace_keeps_identity" (match next.orders[i]? with
+            | some no => no.id = po.id && no.side = po.side && no.trader = po.trader && no.arr = po.arr
+                         && no.svol = po.svol && no.price = np
+            | none => false) ++
+          chk "replace_rests_with_new_values" (match next.orders[i]? with
+            | some no =>
+              if next.trades.length = prev.trades.length && no.status = .active && no.price = np then
+                no.vol = nv.getD po.vol
+              else true
+            | none => false)
+  match op with
+  | .modify i p v => go i p v
+  | .ev (.modify i p v) => go i p v
+  | _ => []
+
 /-! ### C12 — tick grid -/
 
 def onGrid (tick : Nat) (o : Order) : Bool := Book.isMarket o || o.price % tick = 0
